@@ -317,6 +317,13 @@ func (in *Interp) runPath(fn *ssa.Function) (end pathEnd) {
 				in.reportPanic(r)
 				end = pathEnd{"violation", "panic: " + r.msg}
 			default:
+				if len(in.stack) > 0 {
+					lo := len(in.stack) - 8
+					if lo < 0 {
+						lo = 0
+					}
+					panic(fmt.Sprintf("%v [interpreting %s]", r, strings.Join(in.stack[lo:], " > ")))
+				}
 				panic(r)
 			}
 		}
